@@ -167,6 +167,150 @@ pub fn from_api(src: &mut Src, depth: usize, max: usize, signed_call_immediates:
     Program::from_instructions(list).to_quil().ok()
 }
 
+/// An expression rendered by the harness's own printer, with spellings the library's printer never
+/// chooses: every compound operand parenthesised (always valid) plus random redundant parentheses,
+/// optional blanks around operators, upper-case function names and `PI`, bare memory names for
+/// index 0, and alternative number spellings (`2`, `2.0`, `2e0`, `0x2`; `2i`, `2.0i`).
+pub fn render_expression(src: &mut Src, e: &quil_rs::expression::Expression) -> String {
+    use quil_rs::expression::{Expression, ExpressionFunction, InfixOperator, PrefixOperator};
+    fn number(src: &mut Src, x: f64) -> String {
+        if x >= 0.0 && x.fract() == 0.0 && x < 1e6 {
+            let n = x as u64;
+            match src.below(5) {
+                0 => format!("{n}"),
+                1 => format!("{n}.0"),
+                2 => format!("{n}e0"),
+                3 => format!("0x{n:x}"),
+                _ => format!("{n}."),
+            }
+        } else {
+            match src.below(2) {
+                0 => format!("{x:?}"),
+                _ => format!("{x:e}"),
+            }
+        }
+    }
+    let inner = match e {
+        Expression::Number(c) => {
+            let (re, im) = (c.re, c.im);
+            let part = |src: &mut Src, x: f64| if x < 0.0 { format!("-{}", number(src, -x)) } else { number(src, x) };
+            if im == 0.0 {
+                if re < 0.0 {
+                    format!("({})", part(src, re))
+                } else {
+                    part(src, re)
+                }
+            } else if re == 0.0 {
+                if im < 0.0 {
+                    format!("(-{}i)", number(src, -im))
+                } else {
+                    format!("{}i", number(src, im))
+                }
+            } else {
+                format!("({}{}{}i)", part(src, re), if im < 0.0 { "-" } else { "+" }, number(src, im.abs()))
+            }
+        }
+        Expression::PiConstant() => src.pick(&["pi", "PI", "Pi"]).to_string(),
+        Expression::Variable(v) => format!("%{v}"),
+        Expression::Address(m) => {
+            if m.index == 0 && src.chance(1, 2) && !crate::gen::ident::is_expression_word(&m.name) {
+                m.name.clone()
+            } else {
+                format!("{}[{}]", m.name, m.index)
+            }
+        }
+        Expression::FunctionCall(f) => {
+            let name = match f.function {
+                ExpressionFunction::Cis => "cis",
+                ExpressionFunction::Cosine => "cos",
+                ExpressionFunction::Exponent => "exp",
+                ExpressionFunction::Sine => "sin",
+                ExpressionFunction::SquareRoot => "sqrt",
+                #[allow(unreachable_patterns)]
+                _ => "sin",
+            };
+            let name = if src.chance(1, 4) { name.to_uppercase() } else { name.to_string() };
+            format!("{name}({})", render_expression(src, &f.expression))
+        }
+        Expression::Prefix(p) => {
+            let op = match p.operator {
+                PrefixOperator::Minus => "-",
+                PrefixOperator::Plus => "",
+            };
+            let operand = render_expression(src, &p.expression);
+            let compound = matches!(&*p.expression, Expression::Infix(_) | Expression::Prefix(_));
+            if compound || src.chance(1, 4) {
+                format!("{op}({operand})")
+            } else {
+                format!("{op}{operand}")
+            }
+        }
+        Expression::Infix(i) => {
+            let op = match i.operator {
+                InfixOperator::Plus => "+",
+                InfixOperator::Minus => "-",
+                InfixOperator::Star => "*",
+                InfixOperator::Slash => "/",
+                InfixOperator::Caret => "^",
+            };
+            let mut side = |src: &mut Src, x: &Expression| {
+                let t = render_expression(src, x);
+                if matches!(x, Expression::Infix(_) | Expression::Prefix(_)) || src.chance(1, 5) {
+                    format!("({t})")
+                } else {
+                    t
+                }
+            };
+            let l = side(src, &i.left);
+            let r = side(src, &i.right);
+            match src.below(3) {
+                0 => format!("{l}{op}{r}"),
+                1 => format!("{l} {op} {r}"),
+                _ => format!("{l} {op}{r}"),
+            }
+        }
+    };
+    if src.chance(1, 6) {
+        format!("({inner})")
+    } else {
+        inner
+    }
+}
+
+/// Instructions carrying harness-rendered expressions in every expression-bearing position.
+pub fn expression_program(src: &mut Src, depth: usize, max: usize) -> String {
+    let cfg = Cfg::plain(depth);
+    let n = 1 + src.below(max);
+    let mut lines = vec![];
+    for _ in 0..n {
+        let vars: Vec<String> = vec!["a".to_string(), "Tau".to_string()];
+        let closed = instr::expr(src, &cfg, &[]);
+        let e = render_expression(src, &closed);
+        let line = match src.below(10) {
+            0 => format!("RX({e}) 0"),
+            1 => format!("CPHASE({e}) 0 1"),
+            2 => format!("SET-FREQUENCY 0 \"rf\" {e}"),
+            3 => format!("SHIFT-PHASE 0 \"rf\" {e}"),
+            4 => format!("DELAY 0 \"rf\" {e}"),
+            5 => format!("RAW-CAPTURE 0 \"ro\" {e} ro"),
+            6 => format!("PULSE 0 \"rf\" gaussian(duration: {e}, fwhm: 1e-8, t0: 0)"),
+            7 => format!("DEFFRAME 0 \"rf\":\n    SAMPLE-RATE: {e}"),
+            8 => {
+                let open = instr::expr(src, &cfg, &vars);
+                let o = render_expression(src, &open);
+                format!("DEFGATE G(%a, %Tau):\n    {o}, 0\n    0, {e}")
+            }
+            _ => {
+                let open = instr::expr(src, &cfg, &vars);
+                let o = render_expression(src, &open);
+                format!("DEFCAL RX(%a, %Tau) q:\n    SHIFT-PHASE q \"rf\" {o}\n    RZ({e}) q")
+            }
+        };
+        lines.push(line);
+    }
+    lines.join("\n")
+}
+
 /// Style changes that keep a text's meaning: comments, blank lines, trailing blanks, tabs for
 /// the four-space indent, `;` between top-level instructions when no block follows.
 pub fn restyle(src: &mut Src, text: &str) -> String {
@@ -204,6 +348,63 @@ pub fn restyle(src: &mut Src, text: &str) -> String {
             3 => out.push_str("\n# full-line comment\n"),
             4 if !has_blocks && !line.trim().is_empty() && !line.trim_start().starts_with('#') => out.push_str("; "),
             _ => out.push('\n'),
+        }
+    }
+    out
+}
+
+/// Replace the contents of some quoted strings by strings that need escaping (`\"`, `\\`), span
+/// lines, or contain characters that end an instruction elsewhere (`#`, `;`). The text stays
+/// lexically well-formed; whether it still parses (an EXTERN signature does not survive this) is
+/// for the parser to say.
+pub fn respell_strings(src: &mut Src, text: &str) -> String {
+    const PIECES: [&str; 14] = ["\\\"", "\\\\", "a", "B", " ", "#", ";", "\n", "\u{e9}", "%", "@", ":", "0", "-"];
+    let mut out = String::new();
+    let mut chars = text.chars().peekable();
+    let mut in_comment = false;
+    while let Some(c) = chars.next() {
+        if in_comment {
+            if c == '\n' {
+                in_comment = false;
+            }
+            out.push(c);
+            continue;
+        }
+        if c == '#' {
+            in_comment = true;
+            out.push(c);
+            continue;
+        }
+        if c != '"' {
+            out.push(c);
+            continue;
+        }
+        // inside a string: collect it up to the closing quote
+        let mut content = String::new();
+        let mut closed = false;
+        while let Some(d) = chars.next() {
+            if d == '\\' {
+                content.push(d);
+                if let Some(e) = chars.next() {
+                    content.push(e);
+                }
+            } else if d == '"' {
+                closed = true;
+                break;
+            } else {
+                content.push(d);
+            }
+        }
+        out.push('"');
+        if closed && src.chance(1, 2) {
+            for _ in 0..(1 + src.below(4)) {
+                out.push_str(*src.pick(&PIECES));
+            }
+        } else {
+            out.push_str(&content);
+        }
+        if closed {
+            out.push('"');
         }
     }
     out
